@@ -120,6 +120,9 @@ def val(case, name):
     if case["valmode"] == "ivar":
         # int-valued variables (what pda.to_cfg() and cfg.intersection() produce); terminals stay strings
         return VARS.index(name) if name in VARS else name
+    if case["valmode"] == "mixed2":
+        # terminals that print alike but are different values: 1 and "1", "a b" next to "a" and "b"
+        return {"a": 1, "b": "1", "c": "1 1", "zz": "zz"}.get(name, name)
     if case["valmode"] == "mixed":
         # terminal values of different, mutually incomparable types (int, str, float); variables stay strings
         return MIXED.get(name, name)
@@ -232,7 +235,7 @@ def shrink_cfg(case):
         if ident != case["hash"]:
             yield mk(hash=ident)
         yield mk(valmode="str", hash=None)
-    if case["valmode"] == "mixed":
+    if case["valmode"] in ("mixed", "mixed2"):
         yield mk(valmode="str")
 
 
